@@ -73,7 +73,10 @@ type caseT struct {
 	// Stress: after the history, a key is toggled by 300 Loads on a small Config of its own while two
 	// goroutines hammer the …Or getters; a result that is neither the value nor the default is an anomaly
 	Stress bool `json:",omitempty"`
-	Loads  []loadT
+	// Dump: the Config has a dumper that edits the top level of the map it is handed (masks a value, drops a key,
+	// adds one); Dump is called after every Load, before the observations: what Get / Values return must not change
+	Dump  bool `json:",omitempty"`
+	Loads []loadT
 	Keys   []string // Get probes after every Load
 }
 
@@ -348,6 +351,33 @@ type runT struct {
 	written map[int][]byte  // what was written into the file of source i for the current Load
 }
 
+// editDumper edits the top level of the map Dump hands it (Dump passes a copy of the top level).
+type editDumper struct{}
+
+func (editDumper) Dump(_ context.Context, values *map[string]any) error {
+	m := *values
+	ks := sortedMapKeys(m)
+	if len(ks) > 0 {
+		delete(m, ks[0])
+	}
+	if len(ks) > 1 {
+		m[ks[1]] = "***"
+	}
+	m["dumped"] = true
+	return nil
+}
+
+// pref: the prefix of an environment source; a second environment source (kind env2) of the same Config has a
+// prefix of its own
+func (r *runT) pref(kind string) string {
+	if kind == "env2" {
+		return "VC14Y" + strings.TrimPrefix(r.envPref, "VC14X")
+	}
+	return r.envPref
+}
+
+func isEnvKind(k string) bool { return k == "env" || k == "env2" }
+
 func (r *runT) build(c *caseT, withHooks bool) error {
 	r.c = c
 	nsrc := 0
@@ -371,8 +401,8 @@ func (r *runT) build(c *caseT, withHooks bool) error {
 		switch kind {
 		case "json", "yaml":
 			opts = append(opts, config.WithFile(filepath.Join(r.dir, "s"+strconv.Itoa(i)+"."+kind)))
-		case "env":
-			opts = append(opts, config.WithEnv(r.envPref))
+		case "env", "env2":
+			opts = append(opts, config.WithEnv(r.pref(kind)))
 		case "static":
 			opts = append(opts, config.WithSource(&staticSrc{m: deepCopyMap(kinds[i].M)}))
 		case "content":
@@ -393,6 +423,9 @@ func (r *runT) build(c *caseT, withHooks bool) error {
 	}
 	if c.Schema {
 		opts = append(opts, config.WithJSONSchema([]byte(schemaJSON)))
+	}
+	if c.Dump {
+		opts = append(opts, config.WithDumper(editDumper{}))
 	}
 	for i := 0; i < c.NV; i++ {
 		i := i
@@ -463,9 +496,10 @@ func (r *runT) stage(l *loadT) {
 				r.written = map[int][]byte{}
 			}
 			r.written[i] = b
-		case "env":
+		case "env", "env2":
+			pf := r.pref(s.Kind)
 			for _, e := range os.Environ() {
-				if strings.HasPrefix(e, r.envPref) {
+				if strings.HasPrefix(e, pf) {
 					k, _, _ := strings.Cut(e, "=")
 					_ = os.Unsetenv(k)
 				}
@@ -475,10 +509,10 @@ func (r *runT) stage(l *loadT) {
 				slices.Reverse(names)
 			}
 			for _, k := range names {
-				_ = os.Setenv(r.envPref+k, fmt.Sprint(s.M[k]))
+				_ = os.Setenv(pf+k, fmt.Sprint(s.M[k]))
 			}
 			// a variable that merely starts with the same letters does not belong to the prefix
-			_ = os.Setenv(strings.TrimSuffix(r.envPref, "_")+"X_NAME", "decoy")
+			_ = os.Setenv(strings.TrimSuffix(pf, "_")+"X_NAME", "decoy")
 		}
 	}
 }
@@ -512,7 +546,7 @@ func (r *runT) returned(i int, s *srcT) (map[string]any, bool) {
 			return nil, false
 		}
 		return m, true
-	case "env":
+	case "env", "env2":
 		out := map[string]any{}
 		for k, v := range s.M {
 			var parts []string
@@ -735,6 +769,9 @@ func (r *runT) runLoad(l *loadT) (o loadObs) {
 	close(stop)
 	wg.Wait()
 	validateHook = nil
+	if r.c.Dump {
+		_ = r.cfg.Dump(context.Background())
+	}
 	o.failed = err != nil
 	o.values = snapshot(r.cfg)
 	for j, rd := range l.Readers {
@@ -900,9 +937,10 @@ func emit(id string, c caseT, st *hx.Stats) string {
 	r.dir = dir
 	r.envPref = "VC14X" + strconv.Itoa(os.Getpid()) + "N" + strconv.Itoa(caseCtr) + "_"
 	defer os.Unsetenv(strings.TrimSuffix(r.envPref, "_") + "X_NAME")
+	defer os.Unsetenv(strings.TrimSuffix(r.pref("env2"), "_") + "X_NAME")
 	defer func() {
 		for _, e := range os.Environ() {
-			if strings.HasPrefix(e, r.envPref) {
+			if strings.HasPrefix(e, r.envPref) || strings.HasPrefix(e, r.pref("env2")) {
 				k, _, _ := strings.Cut(e, "=")
 				_ = os.Unsetenv(k)
 			}
@@ -957,17 +995,17 @@ func emit(id string, c caseT, st *hx.Stats) string {
 					faults++
 					continue
 				}
-				if s.Kind == "env" {
+				if isEnvKind(s.Kind) {
 					// the environment source is modelled (Model/ConfigEnv.lean): ship os.Environ() as the source
 					// sees it (the entries with this case's stem, the decoy included) and the prefix
-					stem := strings.TrimSuffix(r.envPref, "_")
+					stem := strings.TrimSuffix(r.pref(s.Kind), "_")
 					var ents []string
 					for _, e := range os.Environ() {
 						if strings.HasPrefix(e, stem) {
 							ents = append(ents, e)
 						}
 					}
-					l.Tok("E").Str(r.envPref).Strs(ents)
+					l.Tok("E").Str(r.pref(s.Kind)).Strs(ents)
 					if !second {
 						envLoads++
 						names := sortedMapKeys(s.M)
@@ -1077,6 +1115,14 @@ func emit(id string, c caseT, st *hx.Stats) string {
 	if st != nil {
 		if c.Stress {
 			st.Count("with_or_getter_stress")
+		}
+		if c.Dump {
+			st.Count("with_editing_dumper")
+		}
+		for _, k := range c.Loads[0].Srcs {
+			if k.Kind == "env2" {
+				st.Count("two_environment_sources")
+			}
 		}
 		if c.Plain {
 			st.Count("binding_without_validate_method")
@@ -1242,6 +1288,7 @@ func genCase(r *hx.Rand, tier string) caseT {
 	c.Schema = r.Chance(1, 3)
 	c.NV = r.Intn(3)
 	c.Bound = r.Chance(2, 3)
+	c.Dump = r.Chance(1, 8)
 	c.Plain = c.Bound && r.Chance(1, 4)
 	c.Tag = c.Bound && !c.Plain && r.Chance(1, 5)
 	c.Stress = r.Chance(1, 60)
@@ -1276,6 +1323,9 @@ func genCase(r *hx.Rand, tier string) caseT {
 	}
 	if nsrc >= 2 && r.Chance(1, 6) {
 		kinds[nsrc-1] = "env"
+		if nsrc >= 3 && r.Chance(1, 2) {
+			kinds[0] = "env2" // WithEnv(A), …other sources…, WithEnv(B): each prefix at its own place in the order
+		}
 	}
 	nl := r.Range(1, 6)
 	var prev []map[string]any
@@ -1286,12 +1336,13 @@ func genCase(r *hx.Rand, tier string) caseT {
 			switch {
 			case kinds[i] == "static" || kinds[i] == "content":
 				s.M = statics[i]
-			case kinds[i] == "env":
+			case isEnvKind(kinds[i]):
 				s.M = map[string]any{}
 				for n := r.Range(0, 4); n > 0; n-- {
 					s.M[hx.Pick(r, []string{"NAME", "SERVER_PORT", "SERVER_HOST", "DEBUG", "A_B", "LEVEL", "DB_POOL_SIZE", "CACHE__TTL", "_RATE", "Timeout_", "x-y",
 						"A", "SERVER", "Name", "name", " NAME", "DB_POOL", "A_B_C", "A__B", "_", "server_port"})] = hx.Pick(r, []string{"1", "envv", "", "true", "8081", " padded ", "a=b", "0",
-						"x\nINJ_KEY=1", "\tq\t", "=", "a b", "v\n"})
+						"x\nINJ_KEY=1", "\tq\t", "=", "a b", "v\n",
+						"Release #5 is out", "\"quoted\"", "'single'", "#hash", "export X=1", "a # b", "\"a b\" # c"})
 				}
 				s.Rev = r.Chance(1, 2)
 			case li > 0 && r.Chance(1, 2):
@@ -1333,7 +1384,7 @@ func genCase(r *hx.Rand, tier string) caseT {
 				}
 				s.M[k] = v
 			}
-			if s.M != nil && kinds[i] != "env" && kinds[i] != "static" && kinds[i] != "content" {
+			if s.M != nil && !isEnvKind(kinds[i]) && kinds[i] != "static" && kinds[i] != "content" {
 				if c.Schema && r.Chance(1, 12) {
 					set("schemafail", r.Chance(3, 4))
 				}
@@ -1349,7 +1400,7 @@ func genCase(r *hx.Rand, tier string) caseT {
 					set("server", hx.Pick(r, []any{"not-a-map", map[string]any{"port": "abc"}}))
 				}
 			}
-			if r.Chance(1, 18) && kinds[i] != "static" && kinds[i] != "content" && kinds[i] != "env" { // those cannot be made to fail
+			if r.Chance(1, 18) && kinds[i] != "static" && kinds[i] != "content" && !isEnvKind(kinds[i]) { // those cannot be made to fail
 				s.Fail = true
 			}
 			if kinds[i] == "map" && r.Chance(1, 30) {
